@@ -27,20 +27,20 @@ chk("C14", "exploration",
     "runtime monitoring: exhaustive operation-string enumeration per archive with reference-table oracle and byte counters on the source", "DESIGN.md §6 C14")
 
 chk("C10", "exploration",
-    "Runtime monitor with pure byte oracles: for seeded CARv1 payloads x, WrapV1/WrapV1File output must be pragma ‖ header(51,len,51+len) ‖ x ‖ index (index checked against a reference scan), ExtractV1File of 4 CARv2 renderings (and of a wrapped null-padded source) into 7 destination states (absent, larger, smaller, in place, in place through a relative alias, a symlink and a hard link of the source) must yield exactly x and leave the source alone, a CARv1 source must be refused without touching files, and ReplaceRootsInFile must change only the header bytes when the encoded header length is unchanged and otherwise fail leaving the file byte-identical. Also lenient-header files for ReplaceRootsInFile and WrapV1 under MaxAllowedSectionSize exactly at the longest section. Also sources with 16.5k-53k sections. In a quarter of the cases WrapV1File's destination lies on another filesystem than the temporary directory.",
+    "Runtime monitor with pure byte oracles: for seeded CARv1 payloads x, WrapV1/WrapV1File output must be pragma ‖ header(51,len,51+len) ‖ x ‖ index (index checked against a reference scan), ExtractV1File of 4 CARv2 renderings (and of a wrapped null-padded source) into 7 destination states (absent, larger, smaller, in place, in place through a relative alias, a symlink and a hard link of the source) must yield exactly x and leave the source alone, a CARv1 source must be refused without touching files, and ReplaceRootsInFile must change only the header bytes when the encoded header length is unchanged and otherwise fail leaving the file byte-identical. Also lenient-header files for ReplaceRootsInFile and WrapV1 under MaxAllowedSectionSize exactly at the longest section. Also sources with 16.5k-53k sections. In a quarter of the cases WrapV1File's destination lies on another filesystem than the temporary directory. MaxAllowedHeaderSize at MaxUint64 / 2^63 on wraps.",
     "trusts refcar's CARv2 renderings and header encoder",
     "runtime monitoring: byte-equality oracles on files before/after each transform", "DESIGN.md §6 C10")
 chk("C11", "exploration",
-    "Runtime monitor: seeded record multisets (8 hash codes, widths 0..80, repeated digests, offsets up to 2^63-1) loaded in 8/24 permutations into both on-disk codecs; reported byte count, strict reference parse, bucket and entry order, multiset equality, permutation invariance (after canonicalising same-digest runs, byte-exact when none), WriteTo→ReadFrom round trip with identical GetAll/ForEach answers and byte-identical re-marshal; plus writing sessions whose flattened embedded index is compared (lookups; bytes when no digest repeats) with GenerateIndex over the finished payload. Also sessions that flatten in the other codec first, PutMany batches refused midway, a reused bytes.Buffer as ReadFrom source. Also multisets with a bucket over 1 MiB and sessions with a CID exactly at MaxIndexCidSize, regenerated under the session's options. Also identity digests of 2040-5000 bytes.",
+    "Runtime monitor: seeded record multisets (8 hash codes, widths 0..80, repeated digests, offsets up to 2^63-1) loaded in 8/24 permutations into both on-disk codecs; reported byte count, strict reference parse, bucket and entry order, multiset equality, permutation invariance (after canonicalising same-digest runs, byte-exact when none), WriteTo→ReadFrom round trip with identical GetAll/ForEach answers and byte-identical re-marshal; plus writing sessions whose flattened embedded index is compared (lookups; bytes when no digest repeats) with GenerateIndex over the finished payload. Also sessions that flatten in the other codec first, PutMany batches refused midway, a reused bytes.Buffer as ReadFrom source. Also multisets with a bucket over 1 MiB and sessions with a CID exactly at MaxIndexCidSize, regenerated under the session's options. Also identity digests of 2040-5000 bytes. Session indexes are also regenerated from a bufio.Reader, a bytes.Buffer and a plain reader.",
     "trusts refcar's index parser/builder",
     "runtime monitoring: reference-parser oracle on serialized bytes and before/after query comparison", "DESIGN.md §6 C11")
 chk("C13", "exploration",
-    "Runtime monitor: Inspect(true|false) on seeded valid archives in 5 container forms under default limits and limits exactly at / one below the largest section and header — every Stats field compared with a reference scan; typed corruptions with by-construction verdicts; random mutations of the section region judged three-way (Inspect vs BlockReader scan vs reference). Also huge limits, Inspect(false) then Inspect(true) on one Reader, a payload header whose version is not 1. Every typed corruption is also inspected under WithTrustedCAR(true): same verdict. Also a CARv2 whose declared payload ends in null bytes (ZeroLengthSectionAsEOF).",
+    "Runtime monitor: Inspect(true|false) on seeded valid archives in 5 container forms under default limits and limits exactly at / one below the largest section and header — every Stats field compared with a reference scan; typed corruptions with by-construction verdicts; random mutations of the section region judged three-way (Inspect vs BlockReader scan vs reference). Also huge limits, Inspect(false) then Inspect(true) on one Reader, a payload header whose version is not 1. Every typed corruption is also inspected under WithTrustedCAR(true): same verdict. Also a CARv2 whose declared payload ends in null bytes (ZeroLengthSectionAsEOF). Also a section limit of 0.",
     "trusts refcar's scan and stdlib hashes; random mutations leave the CBOR header intact to avoid parser-leniency false alarms",
     "runtime monitoring: reference-model oracle on returned Stats and accept/reject verdicts", "DESIGN.md §6 C13")
 
 chk("C07", "exploration",
-    "Runtime monitor: seeded archives (duplicates, same multihash under other codecs, same key with different bytes, identity twins) in 5 container forms x {UseWholeCIDs, StoreIdentityCIDs} x {embedded/generated index, caller-supplied index built by the library or by the reference in either codec}; every present CID and 4-5 absent neighbours are queried through blockstore.NewReadOnly, OpenReadOnly and storage.OpenReadable; Has/Get/GetSize/GetStream/Roots answers are compared with a reference front-to-back scan, AllKeysChan with the scan's CID sequence in order, and the two front-ends with each other; archives written fully indexed but read without the option, identity CIDs longer than MaxIndexCidSize, an io.ReaderAt that reports EOF with the last full read, and a backing on which one section is unreadable (lookups of its key must fail with an error, neither 'absent' nor bytes). Also a supplied complete index over an archive whose embedded index is incomplete. Also archives with 16.5k-53k sections (index generated at open). Backings include Reader.DataReader() and seekable readers whose seek position is not at the start.",
+    "Runtime monitor: seeded archives (duplicates, same multihash under other codecs, same key with different bytes, identity twins) in 5 container forms x {UseWholeCIDs, StoreIdentityCIDs} x {embedded/generated index, caller-supplied index built by the library or by the reference in either codec}; every present CID and 4-5 absent neighbours are queried through blockstore.NewReadOnly, OpenReadOnly and storage.OpenReadable; Has/Get/GetSize/GetStream/Roots answers are compared with a reference front-to-back scan, AllKeysChan with the scan's CID sequence in order, and the two front-ends with each other; archives written fully indexed but read without the option, identity CIDs longer than MaxIndexCidSize, an io.ReaderAt that reports EOF with the last full read, and a backing on which one section is unreadable (lookups of its key must fail with an error, neither 'absent' nor bytes). Also a supplied complete index over an archive whose embedded index is incomplete. Also archives with 16.5k-53k sections (index generated at open). Backings include Reader.DataReader() and seekable readers whose seek position is not at the start. Also other-version twins (CIDv0/CIDv1) as queries and archives with a section over 8 MiB.",
     "trusts refcar's scan; for an absent identity CID under StoreIdentityCIDs a size answer and a not-found answer of GetSize are both accepted",
     "runtime monitoring: reference-scan oracle over public read API results, cross-API agreement", "DESIGN.md §6 C07")
 
@@ -50,7 +50,7 @@ chk("C15", "exploration",
     "runtime monitoring: recorded load log at the link-system boundary vs reference-decoded output bytes and announced sizes", "DESIGN.md §6 C15")
 
 chk("C04", "exploration",
-    "Runtime monitor against an executable reference model: EVERY history of length ≤ 3 (quick) / ≤ 4 (thorough) over {Put of 9 designed blocks, 2 PutMany batches, Finalize, FinalizeReadOnly, Close, Discard} x 10/14 option configurations x {blockstore.ReadWrite, blockstore.OpenReadWriteFile on a caller-owned *os.File, storage.StorageCar on a memfile, storage.StorageCar on a bare ReaderAt/WriterAt that cannot be truncated}, plus random histories of length 10-60; after every step all lookups (Has/Get/GetSize of 9 keys, AllKeysChan, Roots) and the payload bytes on file are compared with the model; after a terminal operation all operations are re-run (errors required, file frozen). Exhaustive within the stated bound only. One configuration's Finalize cannot succeed (index padding 2^63): it is terminal all the same.",
+    "Runtime monitor against an executable reference model: EVERY history of length ≤ 3 (quick) / ≤ 4 (thorough) over {Put of 9 designed blocks, 2 PutMany batches, Finalize, FinalizeReadOnly, Close, Discard} x 10/14 option configurations x {blockstore.ReadWrite, blockstore.OpenReadWriteFile on a caller-owned *os.File, storage.StorageCar on a memfile, storage.StorageCar on a bare ReaderAt/WriterAt that cannot be truncated}, plus random histories of length 10-60; after every step all lookups (Has/Get/GetSize of 9 keys, AllKeysChan, Roots) and the payload bytes on file are compared with the model; after a terminal operation all operations are re-run (errors required, file frozen). Exhaustive within the stated bound only. One configuration's Finalize cannot succeed (index padding 2^63): it is terminal all the same. Limits of 36 and 35 sit exactly at / one byte below five designed CIDs.",
     "trusts the model (harness/internal/lab/model.go: documented admission rules) and refcar; answers are compared against admissible sets so that the model never demands more than the statement",
     "runtime monitoring: step-by-step comparison of public API results and file bytes with an executable map model over exhaustively enumerated short histories", "DESIGN.md §6 C04")
 chk("C19", "exploration",
@@ -59,43 +59,43 @@ chk("C19", "exploration",
     "runtime monitoring: black-box child-process executions judged by acceptance oracles (the tool's own verifiers) and a reference-decoder content oracle", "DESIGN.md §6 C19")
 
 chk("C05", "exploration",
-    "Runtime monitor: seeded writing sessions (incl. none and no-stored-block sessions) x option matrix x {blockstore Put/PutMany, storage.NewWritable, storage.NewReadableWritable, deferred writer} plus archives produced by the built car binary (create, get-dag, filter); each finalized file is parsed by the reference decoder: pragma, DataOffset = 51 + padding, DataSize = exact payload length, IndexOffset = payload end + padding, zero padding bytes, payload = header(roots) ‖ stored sections in put order, index = exactly those sections in canonical order, fully-indexed bit ⇔ StoreIdentityCIDs and no other characteristics bits, nothing after the index; CARv1 mode file = payload; then Reader.Inspect(true) and lib.VerifyCar (when all roots are stored) must accept. Also get-dag of a raw leaf.",
+    "Runtime monitor: seeded writing sessions (incl. none and no-stored-block sessions) x option matrix x {blockstore Put/PutMany, storage.NewWritable, storage.NewReadableWritable, deferred writer} plus archives produced by the built car binary (create, get-dag, filter); each finalized file is parsed by the reference decoder: pragma, DataOffset = 51 + padding, DataSize = exact payload length, IndexOffset = payload end + padding, zero padding bytes, payload = header(roots) ‖ stored sections in put order, index = exactly those sections in canonical order, fully-indexed bit ⇔ StoreIdentityCIDs and no other characteristics bits, nothing after the index; CARv1 mode file = payload; then Reader.Inspect(true) and lib.VerifyCar (when all roots are stored) must accept. Also get-dag of a raw leaf. A third of the blockstore / storage sessions are interrupted (Discard or Finalize) and resumed.",
     "trusts refcar and lab.Model (which puts are stored); CLI outputs are judged for container self-consistency and verifier acceptance only (their content is C19)",
     "runtime monitoring: reference-decoder oracle on finalized bytes plus the library's own verifier verdicts", "DESIGN.md §6 C05")
 chk("C12", "exploration",
-    "Runtime monitor with byte-equality oracles: for put lists of n blocks ALL 3^(n+1) interruption strings over {continue, Discard+reopen, Finalize+reopen} (n ≤ 3 quick / ≤ 5 thorough; random strings for n = 6..15) x 6/10 option configurations x {blockstore.OpenReadWrite, storage.OpenReadableWritable}: final file must equal the uninterrupted session's; every single-field mismatch on reopen (root replaced/removed/added, data padding ±, wrong version) on finalized and unfinalized files must be rejected leaving the file byte-identical. Also V1 sessions on a backend that cannot be truncated, a section limit below the header size, 1/23/24/25 roots. Also MaxIndexCidSize exactly at the longest stored CID.",
+    "Runtime monitor with byte-equality oracles: for put lists of n blocks ALL 3^(n+1) interruption strings over {continue, Discard+reopen, Finalize+reopen} (n ≤ 3 quick / ≤ 5 thorough; random strings for n = 6..15) x 6/10 option configurations x {blockstore.OpenReadWrite, storage.OpenReadableWritable}: final file must equal the uninterrupted session's; every single-field mismatch on reopen (root replaced/removed/added, data padding ±, wrong version) on finalized and unfinalized files must be rejected leaving the file byte-identical. Also V1 sessions on a backend that cannot be truncated, a section limit below the header size, 1/23/24/25 roots. Also MaxIndexCidSize exactly at the longest stored CID. Half of the blockstore sessions put blocks as batches behind a stored block; a WithoutIndex configuration (refused alike everywhere).",
     "byte equality only; permuted roots and changed multiplicity of duplicated roots are not counted as mismatches",
     "runtime monitoring: exhaustive interruption-string enumeration with byte-equality oracle", "DESIGN.md §6 C12")
 chk("C20", "exploration",
-    "Runtime monitor against an executable model: ALL op strings of length ≤ 4 (quick) / ≤ 6 (thorough) over {OnPut(once), OnPut(always), Has x2, Put x3, Close} x 7 targets (path v1/v2/v2+options, stream, stream+options, stream that is also an io.WriterAt in CARv2 mode, stream that breaks mid-session; path targets also over a pre-existing file) plus random longer strings; after every step: nothing written / no file before the first Put, output bytes equal to a directly constructed writer fed the same puts, callback log equal to the model's, closed-error after Close. Also a path target whose first header write fails. Also a plain stream asked for a CARv2 (refused like the direct writer) and 2-4 overlapping Puts from separate goroutines. Also callbacks registered from inside a callback, and an option slice with spare capacity shared by two writers.",
+    "Runtime monitor against an executable model: ALL op strings of length ≤ 4 (quick) / ≤ 6 (thorough) over {OnPut(once), OnPut(always), Has x2, Put x3, Close} x 7 targets (path v1/v2/v2+options, stream, stream+options, stream that is also an io.WriterAt in CARv2 mode, stream that breaks mid-session; path targets also over a pre-existing file) plus random longer strings; after every step: nothing written / no file before the first Put, output bytes equal to a directly constructed writer fed the same puts, callback log equal to the model's, closed-error after Close. Also a path target whose first header write fails. Also a plain stream asked for a CARv2 (refused like the direct writer) and 2-4 overlapping Puts from separate goroutines. Also callbacks registered from inside a callback, and an option slice with spare capacity shared by two writers. Also io.WriterAt streams whose write position is not at the start and Puts with a key that is no CID.",
     "the direct writer is the oracle for bytes (itself judged by C01/C05)",
     "runtime monitoring: step-by-step comparison with an executable model and a twin direct writer over exhaustively enumerated op strings", "DESIGN.md §6 C20")
 
 chk("C16", "fault_enumeration",
-    "Runtime fault injection: the fault-free run of each seeded session (open, 1-5 puts, finalize) yields its list of write calls; EVERY write call is then failed once with accepted byte counts {0, mid, len-1} (quick) or every count (thorough third), with and without retrying the failed block, plus fault pairs (thorough), on 6 targets: StorageCar over a WriterAt memfile, over a plain io.Writer, deferred stream writer, deferred writer on a path, blockstore.ReadWrite with Put and with PutMany (on real files the faults are injected through the verif write hook, attached by *os.File or by file name, whose trace is checked for completeness against the file), plus a hook-independent cross-check in which the KERNEL makes the fault: an untapped child lowers RLIMIT_FSIZE to 'file size + k' around one Put (EFBIG / short write as on a full disk). Monitors: the API call during which the writer failed returns an error; Has(failed block) is false unless stored earlier; if all later calls succeed the finalized archive decodes strictly, holds exactly the acknowledged blocks, a matching index and a consistent header. Also a second Finalize after a failed one (optionally after FinalizeReadOnly). Also sessions that resume an earlier session's file (blockstore and storage).",
+    "Runtime fault injection: the fault-free run of each seeded session (open, 1-5 puts, finalize) yields its list of write calls; EVERY write call is then failed once with accepted byte counts {0, mid, len-1} (quick) or every count (thorough third), with and without retrying the failed block, plus fault pairs (thorough), on 6 targets: StorageCar over a WriterAt memfile, over a plain io.Writer, deferred stream writer, deferred writer on a path, blockstore.ReadWrite with Put and with PutMany (on real files the faults are injected through the verif write hook, attached by *os.File or by file name, whose trace is checked for completeness against the file), plus a hook-independent cross-check in which the KERNEL makes the fault: an untapped child lowers RLIMIT_FSIZE to 'file size + k' around one Put (EFBIG / short write as on a full disk). Monitors: the API call during which the writer failed returns an error; Has(failed block) is false unless stored earlier; if all later calls succeed the finalized archive decodes strictly, holds exactly the acknowledged blocks, a matching index and a consistent header. Also a second Finalize after a failed one (optionally after FinalizeReadOnly). Also sessions that resume an earlier session's file (blockstore and storage). For every write position the retry of the failed call fails too; one target's Truncate fails in the same outage.",
     "fault model = transient error with k < len bytes accepted on one write call; trusts refcar, lab.Model, the memfile and (up to the completeness check) the verif hook",
     "runtime monitoring: enumerated write-fault injection with acked-set bookkeeping and reference decode of the final bytes", "DESIGN.md §6 C16")
 
 chk("C06", "fault_enumeration",
-    "Runtime crash-point enumeration: the ordered mutation trace (with call/ack markers) of seeded sessions (open, 1-5 puts, Finalize) x 8 option configurations x {blockstore traced through the verif hooks, storage on a tracing memfile} x {fresh file, resumed discarded file, resumed finalized file} is cut at EVERY event boundary and within every write at torn lengths {1, mid, len-1} (every byte in the thorough tier and in 1 of 8 quick cases); every crash image is reopened with the same roots/options and judged by acked-set bookkeeping: on error all acknowledged sections must remain intact in the file left behind; on success all acknowledged blocks are present with exact bytes, nothing never put is listed, in-flight blocks if present are intact, and after two more puts + Finalize the archive decodes strictly, verifies, holds all acknowledged + new blocks and nothing unknown, with exact index and header. Further sessions contain a Finalize that fails at its 1st/2nd/3rd write (fault + crash product: the caller carries on, every crash point of the whole trace is enumerated). A strace cross-check runs sampled sessions in an untapped child and requires the kernel's pwrite64/ftruncate sequence on the file to equal the hook trace. Whole-CID sessions hold codec twins of their own blocks. Also sessions opened WithoutIndex (the library refuses to finalize them; a Finalize that succeeds is judged like any other).",
+    "Runtime crash-point enumeration: the ordered mutation trace (with call/ack markers) of seeded sessions (open, 1-5 puts, Finalize) x 8 option configurations x {blockstore traced through the verif hooks, storage on a tracing memfile} x {fresh file, resumed discarded file, resumed finalized file} is cut at EVERY event boundary and within every write at torn lengths {1, mid, len-1} (every byte in the thorough tier and in 1 of 8 quick cases); every crash image is reopened with the same roots/options and judged by acked-set bookkeeping: on error all acknowledged sections must remain intact in the file left behind; on success all acknowledged blocks are present with exact bytes, nothing never put is listed, in-flight blocks if present are intact, and after two more puts + Finalize the archive decodes strictly, verifies, holds all acknowledged + new blocks and nothing unknown, with exact index and header. Further sessions contain a Finalize that fails at its 1st/2nd/3rd write (fault + crash product: the caller carries on, every crash point of the whole trace is enumerated). A strace cross-check runs sampled sessions in an untapped child and requires the kernel's pwrite64/ftruncate sequence on the file to equal the hook trace. Whole-CID sessions hold codec twins of their own blocks. Also sessions opened WithoutIndex (the library refuses to finalize them; a Finalize that succeeds is judged like any other). In half of the images the continuation re-issues everything as one PutMany batch.",
     "crash model = prefix of the issued writes with the last write torn (no reordering); traces are checked for completeness against the final file; trusts refcar and the memfile/hook adapter",
     "runtime monitoring: exhaustive crash-image enumeration over the recorded write trace with acked-set oracle and reference decode", "DESIGN.md §6 C06")
 chk("C17", "exploration",
-    "Runtime monitor on the built car binary: 28 classes of hostile UnixFS DAGs (dot-dot / absolute / empty / long / unicode names, separators, symlinks with escaping targets, same-name symlink-then-file/dir in one directory, in HAMT shards and across roots, several roots, missing blocks, malformed nodes) x 2 output-directory states x up to 5 invocation modes (-f, stdin, relative/symlinked output dir, -p); oracle = recursive snapshot (names, types, sizes, sha256, link targets, modes) of a padded sandbox parent excluding out/ before vs after; any difference is a violation. Coverage guards require that most DAGs really got extracted. Also UnixFS mtime/mode metadata, TMPDIR inside the sandbox, symlinks named like temporary siblings of a later file. Also the output directory named <symlink>/.. (resolved physically, not lexically).",
+    "Runtime monitor on the built car binary: 30 classes of hostile UnixFS DAGs (dot-dot / absolute / empty / long / unicode names, separators, symlinks with escaping targets, same-name symlink-then-file/dir in one directory, in HAMT shards and across roots, several roots, missing blocks, malformed nodes) x 2 output-directory states x up to 5 invocation modes (-f, stdin, relative/symlinked output dir, -p); oracle = recursive snapshot (names, types, sizes, sha256, link targets, modes) of a padded sandbox parent excluding out/ before vs after; any difference is a violation. Coverage guards require that most DAGs really got extracted. Also UnixFS mtime/mode metadata, TMPDIR inside the sandbox, symlinks named like temporary siblings of a later file. Also the output directory named <symlink>/.. (resolved physically, not lexically). Also symlink entries created through an earlier symlink; both same-name entries respelled.",
     "absolute names/targets only point inside the sandbox; a wall-clock watchdog on a child is inconclusive",
     "runtime monitoring: filesystem snapshot-equality oracle around black-box executions on adversarial inputs", "DESIGN.md §6 C17")
 chk("C18", "exploration",
-    "Runtime monitor on the built car binary: seeded file trees in 12 profiles (names up to 255 bytes, empty files, chunk boundaries, deep nesting, many siblings, odd/unicode names, symlinks incl. dangling/absolute/chains, empty dirs, duplicates, sharded directory; a >174-chunk file in thorough) x 6 create forms (wrap v1/v2, no-wrap v1/v2, several sources, '.') then extraction with -f, stdin pipe, stdin redirect and -f into an output directory named through a symlinked ancestor; oracle = tree equality (names, contents, link targets), exactly one header root (reference-decoded) equal to `car root` output and present as a block, source tree untouched. Also older, longer files already in place, zero-filled files, extraction into `.`. Source and flag spellings: trailing separator, leading ./, --no-wrap=false/true. The archive path may be reserved as an empty file beforehand.",
+    "Runtime monitor on the built car binary: seeded file trees in 12 profiles (names up to 255 bytes, empty files, chunk boundaries, deep nesting, many siblings, odd/unicode names, symlinks incl. dangling/absolute/chains, empty dirs, duplicates, sharded directory; a >174-chunk file in thorough) x 6 create forms (wrap v1/v2, no-wrap v1/v2, several sources, '.') then extraction with -f, stdin pipe, stdin redirect and -f into an output directory named through a symlinked ancestor; oracle = tree equality (names, contents, link targets), exactly one header root (reference-decoded) equal to `car root` output and present as a block, source tree untouched. Also older, longer files already in place, zero-filled files, extraction into `.`. Source and flag spellings: trailing separator, leading ./, --no-wrap=false/true. The archive path may be reserved as an empty file beforehand. Also names differing only in case and standard input on a socket.",
     "modes/mtimes are not part of the property; refcar decodes the header",
     "runtime monitoring: round-trip tree-equality oracle over black-box executions", "DESIGN.md §6 C18")
 
 chk("C08", "exploration",
-    "Runtime monitoring under the Go race detector: batches of short concurrent histories (2-16 goroutines x 3-10 ops over 8-32 keys on one shared blockstore.ReadWrite / storage.StorageCar / DeferredCarWriter, with a racing Finalize, fast/slow/cancelled listing consumers and yields injected between section writes) run in a child built with -race; monitors: every race report (normalised to the innermost go-car frame pair), per-key porcupine linearizability of the recorded call/return history against the set model with listings expanded to per-key observations, interval rules tying closed-errors to the terminal operation, a bounded-progress deadlock monitor, and a reference decode of the finalized file (each acknowledged block exactly once, nothing else). Held on the interleavings produced; evidence counts distinct interleaving signatures and overlapping op-type pairs. In half of the histories the store owns its file; the terminal operation may be split (FinalizeReadOnly, then a racing Close); one extra client only asks for the roots. The file as it is when the terminal operation returns success is compared with the file once all clients are done. PutMany batches refused midway (over-long CID) are part of the op mix on one configuration.",
+    "Runtime monitoring under the Go race detector: batches of short concurrent histories (2-16 goroutines x 3-10 ops over 8-32 keys on one shared blockstore.ReadWrite / storage.StorageCar / DeferredCarWriter, with a racing Finalize, fast/slow/cancelled listing consumers and yields injected between section writes) run in a child built with -race; monitors: every race report (normalised to the innermost go-car frame pair), per-key porcupine linearizability of the recorded call/return history against the set model with listings expanded to per-key observations, interval rules tying closed-errors to the terminal operation, a bounded-progress deadlock monitor, and a reference decode of the finalized file (each acknowledged block exactly once, nothing else). Held on the interleavings produced; evidence counts distinct interleaving signatures and overlapping op-type pairs. In half of the histories the store owns its file; the terminal operation may be split (FinalizeReadOnly, then a racing Close); one extra client only asks for the roots. The file as it is when the terminal operation returns success is compared with the file once all clients are done. PutMany batches refused midway (over-long CID) are part of the op mix on one configuration. Has calls under a context cancelled at call time are part of the blockstore op mix.",
     "race detector is happens-before based (finds a racy pair only if both accesses ran); linearizability only over observed schedules; trusts porcupine v1.3.0, refcar, the logical clock (one atomic counter)",
     "runtime monitoring: Go race detector + recorded-history linearizability checking (porcupine) + final-state conservation check", "DESIGN.md §6 C08")
 
 chk("C09", "exploration",
-    "Runtime totality/resource monitor in child processes: ~6k inputs (exhaustive typed mutations incl. CBOR header length claims of reference-built v1/v2/index files: length varints ±1/x2/2^31..2^64-1, v2 header field extremes and overflows, index count/width/len extremes, zero-length sections, CID digest-length claims; the repository's fixtures and fuzz corpus; random mutations) x 50 entry points (block reader Next/SkipNext/mixed on 4 source kinds, Reader Roots/DataReader/IndexReader/Inspect, ReadVersion, GenerateIndex/LoadIndex into 3 index kinds from seekable and plain sources, ReadOrGenerateIndex, index.ReadFrom + queries, read-only blockstore and readable storage + queries, WrapV1, ExtractV1File, ReplaceRootsInFile, root CarReader and LoadCar) under small and default limits; each batch runs in a child under ulimit -v 4 GiB / ulimit -t with a start/done log so that a process-fatal error is attributed to its input; monitors: no panic / runtime fatal / CPU-limit kill, read-call budget and iteration cap (bounded progress), TotalAlloc delta ≤ header limit + section limit + 64·len + 256 KiB, a blocked-goroutine monitor (every goroutine with go-car or harness frames parked on a channel or mutex, unchanged for 10 s → the call does not terminate), canary calls at both ends of every batch, and a limit table (exactly-at-maximum accepted, maximum+1 rejected with the too-large error, giant length prefixes rejected with < 64 KiB allocated). Limit rows include limit 0 and WithTrustedCAR entry points (trust waives hashing, not limits). Scanning entry points call Next/SkipNext twice more after an error or the end.",
+    "Runtime totality/resource monitor in child processes: ~6k inputs (exhaustive typed mutations incl. CBOR header length claims of reference-built v1/v2/index files: length varints ±1/x2/2^31..2^64-1, v2 header field extremes and overflows, index count/width/len extremes, zero-length sections, CID digest-length claims; the repository's fixtures and fuzz corpus; random mutations) x 50 entry points (block reader Next/SkipNext/mixed on 4 source kinds, Reader Roots/DataReader/IndexReader/Inspect, ReadVersion, GenerateIndex/LoadIndex into 3 index kinds from seekable and plain sources, ReadOrGenerateIndex, index.ReadFrom + queries, read-only blockstore and readable storage + queries, WrapV1, ExtractV1File, ReplaceRootsInFile, root CarReader and LoadCar) under small and default limits; each batch runs in a child under ulimit -v 4 GiB / ulimit -t with a start/done log so that a process-fatal error is attributed to its input; monitors: no panic / runtime fatal / CPU-limit kill, read-call budget and iteration cap (bounded progress), TotalAlloc delta ≤ header limit + section limit + 64·len + 256 KiB, a blocked-goroutine monitor (every goroutine with go-car or harness frames parked on a channel or mutex, unchanged for 10 s → the call does not terminate), canary calls at both ends of every batch, and a limit table (exactly-at-maximum accepted, maximum+1 rejected with the too-large error, giant length prefixes rejected with < 64 KiB allocated). Limit rows include limit 0 and WithTrustedCAR entry points (trust waives hashing, not limits). Scanning entry points call Next/SkipNext twice more after an error or the end. Section lengths 2^64-k in a consistent CARv2 (store opened from its index).",
     "'never fails to terminate' is decided as bounded progress (logical read budget, iteration cap, CPU-seconds fence; a wall-clock timeout is inconclusive); allocation measured by runtime.MemStats.TotalAlloc around each sequential call; finding keys name the innermost go-car frame of the dominant allocation / panic",
     "runtime monitoring: child-process execution with resource fences, allocation counters and exit-status/panic classification over structure-aware hostile inputs", "DESIGN.md §6 C09")
 
